@@ -21,7 +21,7 @@ for D in "$@"; do
     . "$ROOT/tools/scale.sh"
     VERIF_SCALE=${SEED_EVAL_SCALE:-$(quick_scale "$c")} "$ROOT/tools/mutant_run.sh" "$WT" "$c" "${SEED_EVAL_TIER:-quick}" >"$log" 2>&1; rc=$?
     nviol=$(grep -c "^VIOLATION" "$log")
-    first=$(grep -m1 -E "violation in check" "$log" | sed 's/"/\\"/g' | cut -c1-300)
+    first=$(grep -m1 -E "violation in check" "$log" | cut -c1-300 | python3 -c 'import sys,json; print(json.dumps(sys.stdin.read().strip())[1:-1])')
     res="$res{\"check\":\"$c\",\"rc\":$rc,\"violation_lines\":$nviol,\"first\":\"$first\"},"
   done
   echo "{\"candidate\":\"$D\",\"head\":\"$(git -C /repo rev-parse --short HEAD)\",\"results\":[${res%,}]}" | tee "$D/eval.json"
